@@ -174,7 +174,7 @@ impl Property for C16 {
         "C16"
     }
     fn rule(&self) -> String {
-        "a finite prop map (1-7 keys: identifier / quoted / hyphenated / spaced keys; property, method and getter members; optional flags) and a random encoding tree that partitions the map and wraps the parts with: inline literal, alias, alias chain (1-3 hops), interface (merged declarations, extends of 1-2 named parents recursively), intersection, parentheses, export, Partial / Required (over re-flagged maps), Pick / Omit over a widened map (keys as literal union, alias of union, nested union), indexed access Box[\"k\"]; declarations placed before or after the call; module scope or a local function scope with same-named decoys outside; four setup forms (arrow, function, destructured, defaulted parameter). Negative cases (imported type, conditional / mapped / keyof / unknown reference) must yield >=1 error diagnostic. Oracle: the mock defineComponent records its arguments; Object.keys(options.props) as a set == declared key set, props[k].required == !optional(k); the module is evaluated in node after erasing TS syntax. non-trivial = encoding depth >=2, a declaration after the call, or a shadowing decoy; distinct by hash(source)".into()
+        "a finite prop map (1-7 keys: identifier / quoted / hyphenated / spaced keys; property, method and getter members; optional flags) and a random encoding tree that partitions the map and wraps the parts with: inline literal, alias, alias chain (1-3 hops), interface (merged declarations, extends of 1-2 named parents recursively), intersection, parentheses, export, Partial / Required (over re-flagged maps), Pick / Omit over a widened map (keys as literal union, alias of union, nested union), indexed access Box[\"k\"]; declarations placed before or after the call; module scope, or a local function scope with same-named decoys outside where a random prefix of the declarations stays at module level (local declarations then reach outer ones through extends / references); four setup forms (arrow, function, destructured, defaulted parameter). Negative cases (imported type, conditional / mapped / keyof / unknown reference) must yield >=1 error diagnostic. Oracle: the mock defineComponent records its arguments; Object.keys(options.props) as a set == declared key set, props[k].required == !optional(k); the module is evaluated in node after erasing TS syntax. non-trivial = encoding depth >=2, a declaration after the call, or a shadowing decoy; distinct by hash(source)".into()
     }
     fn assumptions(&self) -> Vec<String> {
         vec![
